@@ -41,7 +41,7 @@ Definition of_value (v : value) : ival :=
   end.
 
 (* model parse vs implementation parse; PUns = outside the model: not compared *)
-Definition key_corr (text : str) (parsed : option (list str)) : bool :=
+Definition key_corr0 (text : str) (parsed : option (list str)) : bool :=
   match parse_key text with
   | PUns => true
   | PErr => match parsed with None => true | _ => false end
@@ -50,11 +50,18 @@ Definition key_corr (text : str) (parsed : option (list str)) : bool :=
 
 (* parseUnquotedString reports "unquoted strings cannot begin with ...@" (import spread syntax): imports are
    outside this model, such texts are not compared *)
-Definition starts_spread_import (l : str) : bool :=
-  match snd (skip_space l false) with
-  | a :: b :: c :: d :: _ => (a =? cDOT) && (b =? cDOT) && (c =? cDOT) && (d =? cAT)
-  | _ => false
+Fixpoint starts_spread_import (l : str) : bool :=
+  match l with
+  | a :: tl => (match tl with
+                | b :: c :: d :: _ => (a =? cDOT) && (b =? cDOT) && (c =? cDOT) && (d =? cAT)
+                | _ => false
+                end) || starts_spread_import tl
+  | [] => false
   end.
+(* (any occurrence of "...@": leading dots are re-read by parseString, so the prefix test can fire mid-text) *)
+
+Definition key_corr (text : str) (parsed : option (list str)) : bool :=
+  if starts_spread_import text then true else key_corr0 text parsed.
 
 Definition val_corr (text : str) (parsed : ival) (isnum : bool) : bool :=
   if starts_spread_import text then true else
